@@ -174,6 +174,7 @@ type world struct {
 	pointMu    sync.Mutex
 	pointN     map[string]int
 	unresolved atomic.Int32 // yield points whose object could not be mapped to one of our connections
+	strayHooks atomic.Int32 // connect / terminate hook runs whose context does not name one of our connections
 }
 
 func (w *world) countPoint(name string) {
@@ -482,6 +483,9 @@ func newTestServerOn(useTLS bool, wrap func(kmipserver.RequestHandler) kmipserve
 	}
 	srv := kmipserver.NewServer(nl, hdl).
 		WithConnectHook(func(ctx context.Context) (context.Context, error) {
+			if connIDOf(ctx) < 0 {
+				w.strayHooks.Add(1)
+			}
 			ci := w.info(connIDOf(ctx))
 			ci.connectN.Add(1)
 			if w.returned.Load() {
@@ -502,6 +506,9 @@ func newTestServerOn(useTLS bool, wrap func(kmipserver.RequestHandler) kmipserve
 			return ctx, nil
 		}).
 		WithTerminateHook(func(ctx context.Context) {
+			if connIDOf(ctx) < 0 {
+				w.strayHooks.Add(1)
+			}
 			ci := w.info(connIDOf(ctx))
 			ci.terminateN.Add(1)
 			ci.termSeq.Store(w.seq.Add(1))
@@ -1215,6 +1222,10 @@ func (r *ltsRes) count(key string) {
 func (r *ltsRes) takeControls(w *world) {
 	r.Points = w.points()
 	r.Unresolved = int(w.unresolved.Load())
+	if n := w.strayHooks.Load(); n > 0 {
+		// the hooks are paired per connection: a run that belongs to no connection is paired with nothing
+		r.Viol = append(r.Viol, violOut{"hooks", "srv:hook-without-connection", fmt.Sprintf("%d runs of the connect / terminate hook with a context that does not carry the connection (kmipserver.RemoteAddr): not the hook of any connection, so paired with nothing", n)})
+	}
 }
 
 // selfTest is the POSITIVE CONTROL of the observation machinery, run once in every child process
